@@ -34,7 +34,7 @@ FILES = {
         "SELECT a  FROM t1; -- noqa: LT01\nSELECT b  from t2; -- noqa: CP01\nselect c  FROM t3; -- noqa: AL01,LT01\n"
         "SELECT d  FROM t4 AS x; -- noqa\nSELECT e  FROM t5 x; -- noqa: AL01\nSELECT 1 +  + FROM ; -- noqa: PRS\n"
     ),
-    "nested/.sqlfluff": "[sqlfluff]\ndialect = postgres\nmax_line_length = 40\n\n[sqlfluff:templater:jinja:context]\ntbl = nested_tbl\nother_flag = True\n",
+    "nested/.sqlfluff": "[sqlfluff]\ndialect = postgres\nmax_line_length = 40\n\n[sqlfluff:templater:jinja:context]\ntbl = nested_tbl\nsuffix = _arch\n",
     "nested/deep/.sqlfluff": "[sqlfluff:rules:capitalisation.keywords]\ncapitalisation_policy = lower\n",
     "nested/deep/n.sql": (
         "SELECT a::int  AS a_int, b FROM {{ tbl }} WHERE b ILIKE 'x%' AND c ~ '^y'\n"
@@ -47,7 +47,7 @@ FILES = {
     "prs.sql": "SELECT a  FROM t WHERE +;\nSELECT  b from u;\nSELECT 1 +  + FROM ; -- noqa: PRS\n",
     "variants.sql": (
         "SELECT\n    a\n    {% if undefined_flag %}\n    , b  AS bb\n    {% else %}\n    , c as cc\n    {% endif %}\n"
-        "FROM {{ tbl }}\n{% if other_flag %}\nwhere x  = 1\n{% endif %}\n"
+        "FROM {{ tbl }}{{ suffix }}\n{% if other_flag %}\nwhere x  = 1\n{% endif %}\n"
     ),
     "plain.sql": "select a,b  from t  where x=1 and y in (select  z from u)\norder by a\n",
 }
